@@ -484,6 +484,10 @@ type handlerCase struct {
 	// 1 = the origin has the same handler h, 2 = the origin has another handler
 	Derived  bool `json:"derived"`
 	OriginOn int  `json:"originOn"`
+	// ViaOrigin (Derived only): the origin got its handler BEFORE Map was called, the derived publisher gets
+	// none, the subscriptions are on the derived publisher and the values are published on the ORIGIN: every
+	// subscription receives fn(v) exactly once (where is not claimed: the derived publisher has no handler)
+	ViaOrigin bool `json:"viaOrigin,omitempty"`
 }
 
 func runHandlerCase(c handlerCase) histResult {
@@ -500,6 +504,8 @@ func runHandlerCase(c handlerCase) histResult {
 	h.Post(func() { hid = vlib.GoID(); close(ready) })
 	<-ready
 	p := fpgo.PublisherNewGenerics[int]()
+	pubOn := p
+	barrierOn := h
 	if c.Derived {
 		origin := p
 		switch c.OriginOn {
@@ -509,10 +515,18 @@ func runHandlerCase(c handlerCase) histResult {
 			h2 := fpgo.Handler.New()
 			defer h2.Close()
 			origin.SubscribeOn(h2)
+			if c.ViaOrigin {
+				barrierOn = h2
+			}
 		}
 		p = origin.Map(func(v int) int { return v })
 	}
-	p.SubscribeOn(h)
+	if c.Derived && c.ViaOrigin {
+		hid = 0 // no claim about the goroutine
+	} else {
+		pubOn = p
+		p.SubscribeOn(h)
+	}
 	var mu sync.Mutex
 	counts := make([]map[int]int, c.Subs)
 	wrongG := 0
@@ -523,7 +537,7 @@ func runHandlerCase(c handlerCase) histResult {
 			g := vlib.GoID()
 			mu.Lock()
 			counts[i][v]++
-			if g != hid {
+			if g != hid && hid != 0 {
 				wrongG++
 			}
 			mu.Unlock()
@@ -533,15 +547,19 @@ func runHandlerCase(c handlerCase) histResult {
 	go func() {
 		defer close(done)
 		for v := 1; v <= c.Pubs; v++ {
-			p.Publish(v)
+			pubOn.Publish(v)
 		}
 		fin := make(chan struct{})
-		h.Post(func() { close(fin) })
+		barrierOn.Post(func() { close(fin) })
 		<-fin
 	}()
 	select {
 	case <-done:
 	case <-time.After(vlib.StallBudget()):
+		if verdict, dump := vlib.ClassifyStall([]string{"c10.runHandlerCase"}); verdict == "blocked" {
+			res.failKey, res.failMsg = "C10/subscribeOn-deadlock", fmt.Sprintf("publishing %d values with a SubscribeOn handler does not finish (publisher and handler goroutine blocked):\n%s", c.Pubs, dump)
+			return res
+		}
 		vlib.S().Note("handler case slow: %+v", c)
 		return res
 	}
@@ -799,7 +817,7 @@ func TestRegress(t *testing.T) {
 		report(t, "C10/history", h, res, func() {})
 	}
 	// SubscribeOn: every subscription exactly once per value (loop-variable capture defect)
-	for _, c := range []handlerCase{{Cap: -1, Subs: 3, Pubs: 20}, {Cap: 16, Subs: 4, Pubs: 50}, {Cap: 0, Subs: 2, Pubs: 50}, {Cap: -1, Subs: 2, Pubs: 10, Derived: true, OriginOn: 1}, {Cap: 1, Subs: 2, Pubs: 10, Derived: true, OriginOn: 2}} {
+	for _, c := range []handlerCase{{Cap: -1, Subs: 3, Pubs: 20}, {Cap: 16, Subs: 4, Pubs: 50}, {Cap: 0, Subs: 2, Pubs: 50}, {Cap: -1, Subs: 2, Pubs: 10, Derived: true, OriginOn: 1}, {Cap: 1, Subs: 2, Pubs: 10, Derived: true, OriginOn: 2}, {Cap: -1, Subs: 2, Pubs: 5, Derived: true, OriginOn: 1, ViaOrigin: true}, {Cap: 4, Subs: 3, Pubs: 9, Derived: true, OriginOn: 2, ViaOrigin: true}} {
 		for rep := 0; rep < 10; rep++ {
 			vlib.S().Eval("regress")
 			res := runHandlerCase(c)
@@ -942,6 +960,7 @@ func TestSubscribeOn(t *testing.T) {
 		}
 		if c.Derived = rapid.IntRange(0, 2).Draw(t, "derived") == 0; c.Derived {
 			c.OriginOn = rapid.IntRange(0, 2).Draw(t, "originOn")
+			c.ViaOrigin = c.OriginOn > 0 && rapid.Bool().Draw(t, "viaOrigin")
 		}
 		st := vlib.S()
 		st.Eval("subscribeOn")
